@@ -17,6 +17,17 @@ Theorem C07_plain_exact : forall (m helo : bytes) (ext8 : bool),
 Proof. exact send_data_plain. Qed.
 Print Assumptions C07_plain_exact.
 
+(** the checker that judges the C outputs on the plain path accepts what the model writes there *)
+Theorem C07_checker_accepts_plain : forall (m helo : bytes) (ext8 : bool),
+  must_recode ext8 m = false ->
+  exists fl st, send_data m helo ext8 = Ok (fl, false, Done tt st) /\
+                spec_ok_C07_plain m (concat (rev (out st))) = true.
+Proof.
+  intros m helo ext8 H. destruct (send_data_plain m helo ext8 H) as (fl & st & E1 & E2).
+  exists fl, st. split; [exact E1|]. unfold spec_ok_C07_plain. apply bytes_eqb_eq. exact E2.
+Qed.
+Print Assumptions C07_checker_accepts_plain.
+
 (** recode_qp() on any window (body or MIME part) of any message made of octets: what it writes — with
     the CRLF the terminator adds when the last line is open — is decoded by the strict RFC 2045
     receiver of Spec/SmtpDataSpec.v (transparency dots removed, soft line breaks joined, =XX decoded,
